@@ -151,4 +151,78 @@ theorem batch_refines_spec {O : Oracles} {qy : Query} {q : AggStmt} (hq : qy.stm
       obtain ⟨st, hst, hfin⟩ := obind_ok htot
       rw [runBatch_agg O qy q hq hj' joined files hread hst hfin, ← hro]
 
+/-! ### SUM: the overflow case -/
+
+theorem foldV_error (k : AggKind) (vs : List Value) (c : Cell) (err : ErrKind) (v : Value)
+    (h : stepV k v c = .error err) : foldV k (v :: vs) c = .error err := by
+  simp only [foldV, h, Outcome.bind]
+
+theorem foldV_sum_overflow {α : Type} {inj : α → Value} {plus : α → α → α} {okp : α → Bool} {zero : α}
+    (N : NumLike inj plus okp zero) (e : Expr) (vs : List Value) (s : α) (ys : List α)
+    (hys : nonNull vs = ys.map inj) (hov : psOk plus okp s ys = false) :
+    foldV (.sum e) vs (sumCell (inj s)) = .error .undefinedOperation := by
+  induction vs generalizing s ys with
+  | nil => simp [nonNull] at hys; cases ys <;> simp at hys; simp [psOk] at hov
+  | cons v vs ih =>
+    cases hv : v.isNull
+    · rw [nonNull_cons_of_not_null hv] at hys
+      obtain ⟨y, ys', rfl, rfl, hys'⟩ := map_cons_inv hys
+      simp only [psOk, Bool.and_eq_false_iff] at hov
+      by_cases hok : okp (plus s y) = true
+      · have hov' : psOk plus okp (plus s y) ys' = false := by
+          rcases hov with h | h
+          · rw [hok] at h; simp at h
+          · exact h
+        simp only [foldV, stepV, sumCell, Option.getD, hv, Bool.not_false, if_true, aggUpdate_sum, N.add, hok, bind,
+          Outcome.bind, pure]
+        exact ih (plus s y) ys' hys' hov'
+      · simp only [foldV, stepV, sumCell, Option.getD, hv, Bool.not_false, if_true, aggUpdate_sum, N.add, hok, bind,
+          Outcome.bind, pure, Bool.false_eq_true, if_false]
+    · have := isNull_eq_true hv; subst this
+      rw [nonNull_cons_null] at hys
+      simp only [foldV, stepV, sumCell, Option.getD, isNull_null, Bool.not_true, Bool.false_eq_true, if_false, aggIsNull, N.notNull,
+        Outcome.bind]
+      exact ih s ys hys hov
+
+/-- **SUM, the overflow case**: if the INT values of a group (each an i64) have a partial sum outside the 64-bit
+range, folding the engine's SUM step over them reports `UndefinedOperation` — it neither wraps nor panics -/
+theorem sum_int_overflow_is_error (e : Expr) (v : Value) (vs : List Value) (is : List Int)
+    (h : nonNull (v :: vs) = is.map Value.int) (hrange : ∀ i ∈ is, inI64 i = true)
+    (hov : partialSumsOk inI64 0 is = false) :
+    foldV (.sum e) (v :: vs) {} = .error .undefinedOperation := by
+  rw [foldV_sum_init]
+  cases hv : v.isNull
+  · have h' := h
+    rw [nonNull_cons_of_not_null hv] at h'
+    obtain ⟨y, ys', rfl, rfl, _⟩ := map_cons_inv h'
+    rw [numLike_int.dflt]
+    exact foldV_sum_overflow numLike_int e _ 0 _ h (by rw [psOk_int]; exact hov)
+  · have := isNull_eq_true hv; subst this
+    simp only [defaultOf]
+    -- from the NULL start the first addend is adopted: the running sum is then `y`
+    rw [nonNull_cons_null] at h
+    clear hv
+    induction vs generalizing is with
+    | nil => simp [nonNull] at h; cases is <;> simp at h; simp [partialSumsOk] at hov
+    | cons w ws ih =>
+      cases hw : w.isNull
+      · rw [nonNull_cons_of_not_null hw] at h
+        obtain ⟨y, ys', rfl, rfl, hys'⟩ := map_cons_inv h
+        have hy : inI64 y = true := hrange y (by simp)
+        simp only [partialSumsOk, Int.zero_add, hy, Bool.true_and] at hov
+        have h1 : foldV (.sum e) (Value.null :: Value.int y :: ws) (sumCell .null) =
+            foldV (.sum e) ws (sumCell (.int y)) := by
+          simp only [foldV, stepV, sumCell, Option.getD, isNull_null, Bool.not_true, Bool.false_eq_true, if_false, aggIsNull,
+            if_true, Outcome.bind, isNull, Bool.not_false, aggUpdate_sum, numLike_int.addNull, bind, pure]
+        rw [h1]
+        exact foldV_sum_overflow numLike_int e ws y ys' hys' (by rw [psOk_int]; exact hov)
+      · have := isNull_eq_true hw; subst this
+        rw [nonNull_cons_null] at h
+        have h1 : foldV (.sum e) (Value.null :: Value.null :: ws) (sumCell .null) =
+            foldV (.sum e) (Value.null :: ws) (sumCell .null) := by
+          simp only [foldV, stepV, sumCell, Option.getD, isNull_null, Bool.not_true, Bool.false_eq_true, if_false, aggIsNull,
+            if_true, Outcome.bind]
+        rw [h1]
+        exact ih is hrange hov h
+
 end Sqlgrep
